@@ -3,6 +3,7 @@ package checks
 import (
 	"encoding/binary"
 	"fmt"
+	"os"
 	"reflect"
 	"runtime"
 	"runtime/debug"
@@ -21,6 +22,37 @@ type mutation struct {
 	Val  int64  `json:"v,omitempty"`
 }
 
+// count bombs: nested containers of a recursive type where the count at EVERY level claims all
+// the bytes that remain at that level (each one passes a "count fits the remaining input" test).
+type bombShape struct {
+	typ, shape string
+	countOff   []int // offsets of the 4-byte counts inside the shape's prefix
+	minEntry   int   // minimal wire size of one element / entry
+}
+
+var c05Bombs = []bombShape{
+	{"RecL", "L", []int{4}, 1}, {"RecSet", "E", []int{4}, 1}, {"RecMV", "M", []int{5}, 5}, {"RecLL", "LL", []int{4, 9}, 1},
+	{"RecMix", "L", []int{4}, 1}, {"RecMix", "E", []int{4}, 1}, {"RecMix", "M", []int{5}, 5}, {"RecH", "L", []int{4}, 1},
+}
+
+func buildBomb(bs bombShape, depth, pad int) []byte {
+	sd := c15Shapes[bs.typ][bs.shape]
+	var out []byte
+	var sites []int
+	for i := 0; i < depth; i++ {
+		for _, o := range bs.countOff {
+			sites = append(sites, len(out)+o)
+		}
+		out = append(out, sd.prefix...)
+	}
+	out = append(out, make([]byte, pad)...) // zeros: empty structs, so later "elements" even parse
+	for _, s := range sites {
+		rem := len(out) - s - 4
+		binary.BigEndian.PutUint32(out[s:], uint32(rem/bs.minEntry))
+	}
+	return out
+}
+
 type c05Case struct {
 	S     *core.StructSpec `json:"s"`
 	Base  []byte           `json:"base,omitempty"`  // a well-formed message for S
@@ -28,6 +60,13 @@ type c05Case struct {
 	Muts  []mutation       `json:"muts,omitempty"`
 	Exact []byte           `json:"exact,omitempty"` // replay of one exact input
 	All   bool             `json:"all,omitempty"`   // also enumerate every prefix and every site corruption
+	Bomb  *c05Bomb         `json:"bomb,omitempty"`  // a nested count bomb instead of mutations
+}
+
+type c05Bomb struct {
+	Shape int `json:"shape"`
+	Depth int `json:"depth"`
+	Pad   int `json:"pad"`
 }
 
 func c05Cfg() core.GenCfg {
@@ -38,6 +77,11 @@ func c05Cfg() core.GenCfg {
 }
 
 func genC05(t *rapid.T) c05Case {
+	if rapid.IntRange(0, 11).Draw(t, "bomb") == 0 {
+		b := &c05Bomb{Shape: rapid.IntRange(0, len(c05Bombs)-1).Draw(t, "bombshape"), Depth: rapid.SampledFrom([]int{2, 3, 5, 10, 40, 100, 200, 300}).Draw(t, "bombdepth"),
+			Pad: rapid.SampledFrom([]int{0, 16, 256, 2048, 8192, 30000}).Draw(t, "bombpad")}
+		return c05Case{S: core.LookupSpec(c05Bombs[b.Shape].typ), Bomb: b}
+	}
 	cfg := c05Cfg()
 	tv := genTV(cfg)(t)
 	c := c05Case{S: tv.S}
@@ -151,7 +195,21 @@ func allocK(s *core.StructSpec) int {
 			ratio = per
 		}
 	})
-	return 16384 + 16*ratio
+	return 64 + 16*ratio
+}
+
+// allocBounds: T1 is what a decoder may allocate for an input of n bytes reaching the given
+// nesting depth: a constant, one pooled 8 KiB presence set per level (first time only), the
+// error text wrapped once per level, and K bytes per input byte (K covers the Go size of the
+// cheapest-on-the-wire element, with 16x slack). T2 adds what the open known finding F20 explains:
+// count*size(element) reserved for every container entered (the model sums it up, Verdict.Prealloc),
+// each count being bounded only by the bytes remaining at its own level. Anything above T2 is a
+// different defect.
+func allocBounds(k, n, depth int, prealloc uint64) (t1, t2 uint64) {
+	d := uint64(depth + 1)
+	t1 = 1<<20 + d*8192 + d*d*192 + uint64(k)*uint64(n)
+	t2 = t1 + 3*prealloc
+	return
 }
 
 func goSizeOf(t *core.TypeSpec) int {
@@ -220,8 +278,20 @@ func (r *c05Runner) one(s *core.StructSpec, in []byte, k int, what string) *Fail
 	if f != nil {
 		return fail(f)
 	}
-	if bound := uint64(1<<20 + k*len(in)); alloc > bound {
-		return fail(failf("alloc-blowup", "DecodeObject allocated %d bytes for %d input bytes (bound %d; err=%v)", alloc, len(in), bound, err))
+	if t1, t2 := allocBounds(k, len(in), verdict.MaxDepth, verdict.Prealloc); alloc > t1 {
+		if alloc <= t2 && verdict.MaxDepth >= 2 && os.Getenv("VERIF_REPLAY") == "" {
+			// open known finding F20 (nested counts, each bounded only by the bytes remaining at its own
+			// level): excluded from the search and counted, so that the campaign goes on; the recorded
+			// case is replayed by the driver and reported as KNOWN-FINDING while it reproduces
+			r.w.exclude("F20")
+		} else {
+			f := failf("alloc-blowup", "DecodeObject allocated %d bytes for %d input bytes nested %d levels (bound %d; with the nested-count amplification of F20: %d; err=%.200v)", alloc, len(in), verdict.MaxDepth, t1, t2, err)
+			if alloc <= t2 && verdict.MaxDepth >= 2 {
+				f.Class = "alloc-blowup-nested-counts"
+				f.Known = "F20"
+			}
+			return fail(f)
+		}
 	}
 	if string(buf) != string(in) {
 		return fail(failf("input-modified", "DecodeObject modified its input buffer"))
@@ -325,6 +395,9 @@ func (r *c05Runner) run(c c05Case) *Failure {
 	k := allocK(c.S)
 	if c.Exact != nil {
 		return r.one(c.S, c.Exact, k, "exact")
+	}
+	if c.Bomb != nil {
+		return r.one(c.S, buildBomb(c05Bombs[c.Bomb.Shape], c.Bomb.Depth, c.Bomb.Pad), k, "count-bomb")
 	}
 	lens, types := collectSites(c.Base)
 	for _, m := range c.Muts {
